@@ -55,11 +55,7 @@ def gen(rng, tier):
     for _ in range(700 * n):
         f = rng.choice("eEgGpbf")
         x = values(rng, tier, f)
-        if f in "gG" and x.form == 1 and -4 <= x.exp - 1 < 21 and abs(x.exp) > 6000:
-            continue
         ops = ["Text 0 %d -1" % ord(f)]
-        if f in "gG" and x.form == 1 and not (x.exp - 1 < -4 or x.exp - 1 >= 6) and len(x.words) > 30:
-            pass
         k = rng.randint(0, 5)
         if k == 0:
             ops.append("Append 0 %d -1 %s" % (ord(f), hx(rng.choice(["", "x=", "[", "-"]))))
@@ -75,8 +71,6 @@ def gen(rng, tier):
     for _ in range(900 * n):
         f = rng.choice("eEgGpbf" + "\x00\x01")
         x = values(rng, tier, "f" if f == "f" else None)
-        if f in "gG\x00\x01" and x.form == 1 and -4 <= x.exp - 1 < 6 and len(x.words) > 300:
-            pass
         extra = rng.choice([0, 0, 0, 1, 5, 19, 40])
         md = rng.randint(0, 5)
         base = rng.choice([10, 0]) if f not in "\x00\x01" else 0
